@@ -39,6 +39,17 @@ type evRec struct {
 	// who ran it, in a sequential run: 'S' the goroutine issuing the requests, 'B' a background
 	// shrinker; 0 in a concurrent run (the other clients' commits are not part of the trace)
 	who byte
+	// commit-done: the transaction had written something (a read-only transaction reveals nothing)
+	dirty bool
+}
+
+// txnDirty: whether the transaction has written any journal object (asked at its commit point)
+func txnDirty(kind string, op *fstxn.FsTxn) (d bool) {
+	if kind != "commit-done" || op == nil {
+		return false
+	}
+	defer func() { recover() }()
+	return op.Atxn.Op.NDirty() > 0
 }
 
 type concClient struct {
@@ -84,7 +95,7 @@ func concObserver(kind string, op *fstxn.FsTxn, arg uint64) {
 	}
 	c := v.(*concClient)
 	seq := atomic.AddUint64(&evSeq, 1)
-	c.events = append(c.events, evRec{seq: seq, kind: kind, arg: arg, txn: txnID(kind, op)})
+	c.events = append(c.events, evRec{seq: seq, kind: kind, arg: arg, txn: txnID(kind, op), dirty: txnDirty(kind, op)})
 	if (kind == "commit-start") && c.wantDir != nil {
 		// all locks are held: read the slot the new name went to from the directory's name cache
 		func() {
@@ -120,10 +131,12 @@ func concObserver(kind string, op *fstxn.FsTxn, arg uint64) {
 
 // lockTrace renders the events of one operation, transaction by transaction:
 //
-//	T a3 a7 c r3 r7 | T a5 r5 x        (a=acquired r=released c=commit ok f=commit refused x=abort)
+//	T a3 a7 c r3 r7 | T a5 r5 x        (a=acquired r=released c=commit ok f=commit refused x=abort
+//	                                    u=commit ok of a transaction that wrote something, WITHOUT waiting for the disk)
 func lockTrace(evs []evRec) string {
 	var order []uintptr
 	per := map[uintptr]*strings.Builder{}
+	nowait := map[uintptr]bool{}
 	for _, e := range evs {
 		b, ok := per[e.txn]
 		if !ok {
@@ -141,8 +154,12 @@ func lockTrace(evs []evRec) string {
 			fmt.Fprintf(b, " a%d", e.arg)
 		case "rel":
 			fmt.Fprintf(b, " r%d", e.arg)
+		case "commit-start":
+			nowait[e.txn] = e.arg == 0
 		case "commit-done", "flush-done":
-			if e.arg == 1 {
+			if e.arg == 1 && e.kind == "commit-done" && nowait[e.txn] && e.dirty {
+				b.WriteString(" u")
+			} else if e.arg == 1 {
 				b.WriteString(" c")
 			} else {
 				b.WriteString(" f")
@@ -199,7 +216,7 @@ func seqObserver(kind string, op *fstxn.FsTxn, arg uint64) {
 		who = 'S'
 	}
 	seqEvMu.Lock()
-	seqEvBuf = append(seqEvBuf, evRec{seq: atomic.AddUint64(&evSeq, 1), kind: kind, arg: arg, txn: txnID(kind, op), who: who})
+	seqEvBuf = append(seqEvBuf, evRec{seq: atomic.AddUint64(&evSeq, 1), kind: kind, arg: arg, txn: txnID(kind, op), who: who, dirty: txnDirty(kind, op)})
 	seqEvMu.Unlock()
 }
 
